@@ -296,7 +296,13 @@ type c06Unit struct {
 	verified  bool
 }
 
-var c06Seq int64
+// c06Repeat counts how often a scenario name ran in this process (-count / -cpu
+// repetitions): key names are a function of (scenario, op index, repetition) only, so a
+// replayed scenario places its keys on the same cluster nodes.
+var (
+	c06RepeatMu sync.Mutex
+	c06Repeat   = map[string]int{}
+)
 
 func c06Keys(prefix string, n int) []string {
 	ks := make([]string, n)
@@ -308,6 +314,9 @@ func c06Keys(prefix string, n int) []string {
 }
 
 type c06Run struct {
+	name  string
+	rep   int
+	nop   int
 	m     *vk.M
 	rig   *c06Rig
 	desc  string
@@ -324,8 +333,9 @@ func (x *c06Run) violate(sig, format string, a ...any) {
 // issue performs the foreground delete of op and creates its units.
 func (x *c06Run) issue(op c06Op) (ok bool) {
 	r := x.rig
-	id := atomic.AddInt64(&c06Seq, 1)
-	prefix := fmt.Sprintf("c06:%d", id)
+	id := x.nop
+	x.nop++
+	prefix := fmt.Sprintf("c06:%s:%d:%d", x.name, x.rep, id)
 	now := atomic.LoadInt64(&r.tick)
 	var created []*c06Unit
 	mk := func(kind string, keys []string, g int) *c06Unit {
@@ -565,7 +575,11 @@ func (x *c06Run) deadlines(now int64) (settled bool) {
 
 // c06RunScenario executes one scenario on the shared rig. ok=false: inconclusive, stop the test.
 func c06RunScenario(m *vk.M, rig *c06Rig, idx int, sc c06Scenario) (ok bool, stats map[string]int64) {
-	x := &c06Run{m: m, rig: rig, desc: fmt.Sprintf("case=%d;%s", idx, vk.JSON(sc)), stats: map[string]int64{}}
+	c06RepeatMu.Lock()
+	rep := c06Repeat[sc.Name]
+	c06Repeat[sc.Name] = rep + 1
+	c06RepeatMu.Unlock()
+	x := &c06Run{name: sc.Name, rep: rep, m: m, rig: rig, desc: fmt.Sprintf("case=%d;%s", idx, vk.JSON(sc)), stats: map[string]int64{}}
 	m.Current(x.desc)
 	defer func() {
 		for _, u := range x.units {
